@@ -58,7 +58,7 @@ def branch_conformance(sh, node, d, tree, path=()):
             if isinstance(d, Mapping) and f.name in d:
                 v = d[f.name]
             elif f.has_default:
-                v = f.default
+                v = RC.default_datum(f.type, f.default)  # the datum the JSON default denotes
             else:
                 v = None
             r = branch_conformance(sh, f.type, v, c, path + (f.name,))
